@@ -367,7 +367,7 @@ def _gtf_lines(truth):
             gid = g.gid
             a, b = g.span()
             if s["pre_ids"] and g.gid.endswith(("2", "5")):
-                gid = "novel_gene_%s_%d" % (chrom, 1 + n % 3)
+                gid = "novel_gene_%s_%d" % (chrom, n + 1)
             n += 1
             g.out_gid = gid
             if s["gtf_meta"]:
@@ -377,7 +377,7 @@ def _gtf_lines(truth):
                 ex = [g.exons[i] for i in idx]
                 otid = tid
                 if s["pre_ids"] and k == 0 and g.gid.endswith(("1", "2", "4")):
-                    otid = "transcript%d.%s.nic" % (1 + (n % 4), chrom)
+                    otid = "transcript%d.%s.nic" % (n, chrom)
                 g.out_tids.append(otid)
                 if s["gtf_meta"]:
                     lines.append((chrom, "transcript", ex[0][0], ex[-1][1], g.strand,
